@@ -28,7 +28,8 @@ def run(report, tier):
                       "copied and conjugated ones); dict_definitions / dict_model_aliases report the last definition of each name",
                 bounds=f"{len(H.DEF_VARIANTS)} Define sets (incl. redefinitions) x 4 placements x {len(H.ALIAS_VARIANTS)} alias sets (incl. "
                        f"aliases with Define'd and negated parameters, redefinition) x 3 placements x {len(H.USE_PATTERNS)} use patterns "
-                       "(0..3 uses per block, 1..3 blocks) x (plain | CopyDecay | CopyDecay + CDecay)",
+                       "(0..3 uses per block, 1..3 blocks) x (plain | CopyDecay | CopyDecay + CDecay) x 2 spellings of the Define'd names "
+                       "(plain words | names with inner hyphens and slashes: dm-Bs, q/p_B-mix)",
                 functions=FUNCS, timeout=900 if thorough else 480, sample={"defs": H.DEF_VARIANTS[2], "aliases": H.ALIAS_VARIANTS[2]}),
     ]
     for h in hs:
